@@ -73,6 +73,10 @@ pub struct RunCfg {
     /// The interrupt signal is already in the channel when the call begins.
     #[serde(default)]
     pub pre_signal: bool,
+    /// The caller drops its `Sender<InterruptSignal>` as soon as it has sent the signal
+    /// (with `pre_signal`: before the call begins).
+    #[serde(default)]
+    pub tx_drop: bool,
 }
 
 fn fwd() -> String {
@@ -114,6 +118,9 @@ pub enum Step {
         /// Do not poll afterwards: the next non-deferred step polls.
         #[serde(default)]
         defer: bool,
+        /// The function sends the interrupt signal itself, inside the poll in which it returns.
+        #[serde(default)]
+        signal: bool,
     },
     /// Send the interrupt signal.
     Signal {
